@@ -221,7 +221,13 @@ class Model:
                 out.append(self.idle(name, t0, delay, Q))
             out.append(ESlot("pulse", ti, tf, Q, phase=phase_at(ti), amp=amp, pdet=pdet))
             pr = Pred(slots={name: out})
-            if not is_dmm:
+            if is_dmm:
+                # a DMM pulse counts as a use of its atoms in the ground-rydberg basis (Sequence._add records its end as the atoms' 'last
+                # used' time, which is where a later phase shift puts its barrier); it never carries a phase shift of its own
+                for q in Q:
+                    if basis in pre.basis_ref and q in pre.basis_ref[basis]:
+                        pr.used[(basis, q)] = max(_ref(pre, basis, q)[2], tf)
+            else:
                 shift = post
                 if drift is not None:
                     shift -= drift[0] * (ti - drift[1]) * 1e-3
